@@ -184,6 +184,8 @@ class Gen:
         self.names = sorted(OPS)
         self.weights = [OPS[n].weight for n in self.names]
         self.queue: list[dict] = []   # follow-up steps of a "twin query" (near-colliding variants of one query)
+        self.labels: dict[int, int] = {}   # label of a queued step -> index it was emitted at
+        self.next_label = 0
 
     def _pick_slot(self, cands: list[int]) -> int:
         rng = self.rng
@@ -228,8 +230,18 @@ class Gen:
             q = self.queue.pop(0)
             out = list(range(self.next_slot, self.next_slot + MAX_OUT))
             self.next_slot += MAX_OUT
-            return {"i": i, "c": client, "op": q["op"], "args": list(q["args"]), "p": q.get("p"), "out": out,
-                    "mode": q.get("mode", "typed"), **({"of": q["of"]} if "of" in q else {})}
+            if "label" in q:
+                self.labels[q["label"]] = i
+            st = {"i": i, "c": q.get("c", client), "op": q["op"], "args": list(q["args"]), "p": q.get("p"), "out": out,
+                  "mode": q.get("mode", "typed")}
+            if "of" in q:
+                st["of"] = q["of"]
+            elif "of_label" in q:
+                if q["of_label"] in self.labels:
+                    st["of"] = self.labels[q["of_label"]]
+                else:
+                    st["mode"] = "typed"
+            return st
         script = cfg.get("script") or []
         if i < len(script):
             sc = script[i]
@@ -265,13 +277,31 @@ class Gen:
                     continue
             out = list(range(self.next_slot, self.next_slot + MAX_OUT))
             self.next_slot += MAX_OUT
+            if not fuzzy and cfg["n_clients"] >= 2 and rng.random() < 0.2:
+                # duet: another client runs the SAME operation (on operands of its own choice) right away; under
+                # PREEMPT the two calls overlap line by line, which is what exposes call-local state kept in module-
+                # or class-level variables
+                args2 = self.bind(op)
+                if args2 is not None:
+                    p2 = p
+                    if op.params is not None:
+                        try:
+                            p2 = op.params(rng, [self.world.metas[s_] or {"shape": (), "fshape": ()} for s_ in args2],
+                                           [self.world.slots[s_] for s_ in args2])
+                        except Exception:  # noqa: BLE001
+                            p2 = None
+                    if p2 is not None or op.params is None:
+                        self.queue.append({"op": name, "args": args2, "p": p2,
+                                           "c": (client + 1 + rng.randrange(cfg["n_clients"] - 1)) % cfg["n_clients"]})
             if name == "getitem" and p and isinstance(p.get("idx"), dict) and "nb" in p["idx"] and rng.random() < 0.7:
                 # twin queries: anything keyed by the VALUE of an argument must not confuse equal-but-different
                 # values: np.True_ == 1 and np.False_ == 0, yet a[np.True_] and a[1] are different questions
                 twin = {"idx": int(p["idx"]["nb"])}
-                self.queue.append({"op": "getitem", "args": args, "p": twin})
+                lab = self.next_label
+                self.next_label += 1
+                self.queue.append({"op": "getitem", "args": args, "p": twin, "label": lab})
                 self.queue.append({"op": "getitem", "args": args, "p": p, "mode": "reask", "of": i})
-                self.queue.append({"op": "getitem", "args": args, "p": twin, "mode": "reask", "of": i + 1})
+                self.queue.append({"op": "getitem", "args": args, "p": twin, "mode": "reask", "of_label": lab})
             return {"i": i, "c": client, "op": name, "args": args, "p": p, "out": out,
                     "mode": "fuzzy" if fuzzy else "typed"}
         return {"i": i, "c": client, "op": "props", "args": [sorted(self.world.slots)[0]], "p": None, "out": [],
